@@ -102,6 +102,11 @@ class Dispatcher:
                     r = switch_edges_for_variant(b, bi, "Some")
                     if r and r[1]:
                         out.append((bi, r[0]))
+        # is_none()/is_some() tests of the lookup result
+        from .core import option_guards
+        for (sw, t_some, t_none) in option_guards(b, lambda x: x[0] == "call" and x[1] is not None and x[1]["path"] == PHF_GET):
+            if (sw, t_some) not in out:
+                out.append((sw, t_some))
         return out
 
     def lookup_key_expr(self):
